@@ -305,6 +305,46 @@ theorem copies_sim (hR : CellRel R) (hF : Full R) (src : Addr) (len : Nat) (n : 
 
 /-! ### the statement loop -/
 
+theorem Sim.ifdefEnter {c1 c2 : Ctx} (h : Sim R c1 c2) : Sim R (ifdefEnter c1) (ifdefEnter c2) :=
+  (h.mapK (fun k => { k with ifdefCount := k.ifdefCount + 1 })).echo _ _
+
+theorem ifdefIgnore_eq {c1 c2 : Ctx} (h : Sim R c1 c2) (neg : Bool) (name : Nat) :
+    ifdefIgnore neg name c1 = ifdefIgnore neg name c2 := by
+  unfold ifdefIgnore; rw [h.1]
+
+theorem Sim.ifdefLeave {c1 c2 : Ctx} (h : Sim R c1 c2) : Sim R (ifdefLeave c1) (ifdefLeave c2) :=
+  h.mapK (fun k => { k with ifdefCount := k.ifdefCount - 1 })
+
+theorem Sim.repeatEnter {c1 c2 : Ctx} (h : Sim R c1 c2) : Sim R (repeatEnter c1) (repeatEnter c2) :=
+  (h.mapK (fun k => { k with inRepeat := true })).echo _ _
+
+theorem repeatFinish_k (c : Ctx) (start : Addr) (count : Int) :
+    (repeatFinish c start count).k =
+      (copies { c with k := { c.k with inRepeat := false } } start (span start c.k.address) (count.toNat - 1)).k := by
+  unfold repeatFinish; simp only; split <;> simp
+
+theorem repeatFinish_cell (c : Ctx) (start : Addr) (count : Int) :
+    (repeatFinish c start count).cell =
+      (copies { c with k := { c.k with inRepeat := false } } start (span start c.k.address) (count.toNat - 1)).cell := by
+  unfold repeatFinish; simp only; split <;> simp
+
+theorem Sim.repeatFinish (hR : CellRel R) (hF : Full R) {c1 c2 : Ctx} (h : Sim R c1 c2) (start : Addr) (count : Int) :
+    Sim R (repeatFinish c1 start count) (repeatFinish c2 start count) := by
+  obtain ⟨m1, m2, k, r1, r2, rfl, rfl, hr⟩ := h.elim
+  have hs : Sim R ⟨m1, k, r1⟩ ⟨m2, k, r2⟩ := ⟨rfl, hr⟩
+  have h3 := copies_sim hR hF start (span start k.address) (count.toNat - 1)
+    (hs.mapK (fun k => { k with inRepeat := false }))
+  refine ⟨?_, ?_⟩
+  · rw [repeatFinish_k, repeatFinish_k]; exact h3.1
+  · rw [repeatFinish_cell, repeatFinish_cell]; exact h3.2
+
+theorem Sim.includeEnter {c1 c2 : Ctx} (h : Sim R c1 c2) : Sim R (includeEnter c1) (includeEnter c2) :=
+  (h.mapK (fun k => { k with includeDepth := k.includeDepth + 1 })).setRep _ _
+
+theorem Sim.includeLeave {c1 c2 : Ctx} (h : Sim R c1 c2) (s1 s2 : Bool) :
+    Sim R (includeLeave s1 c1) (includeLeave s2 c2) :=
+  (h.mapK (fun k => { k with includeDepth := k.includeDepth - 1 })).setRep _ _
+
 theorem exec_sim (hR : CellRel R) (p : Prog) (hp : Full R ∨ NoRepeat p) :
     ∀ {c1 c2 : Ctx}, Sim R c1 c2 → SimRes R (exec p c1) (exec p c2) := by
   induction p with
@@ -320,30 +360,21 @@ theorem exec_sim (hR : CellRel R) (p : Prog) (hp : Full R ∨ NoRepeat p) :
   | ifdef neg name t e rest iht ihe ihr =>
     intro c1 c2 h
     unfold exec
-    have h1 : Sim R ({ c1 with k := { c1.k with ifdefCount := c1.k.ifdefCount + 1 } }.echo ".ifdef")
-                    ({ c2 with k := { c2.k with ifdefCount := c2.k.ifdefCount + 1 } }.echo ".ifdef") :=
-      (h.mapK (fun k => { k with ifdefCount := k.ifdefCount + 1 })).echo _ _
-    revert h1
-    generalize ({ c1 with k := { c1.k with ifdefCount := c1.k.ifdefCount + 1 } }.echo ".ifdef") = d1
-    generalize ({ c2 with k := { c2.k with ifdefCount := c2.k.ifdefCount + 1 } }.echo ".ifdef") = d2
-    intro h1
-    simp only [h1.1]
-    have hb : ∀ b : Bool, SimRes R (if b then exec e d1 else exec t d1) (if b then exec e d2 else exec t d2) := by
-      intro b; cases b
+    have h1 := h.ifdefEnter
+    rw [ifdefIgnore_eq h1 neg name]
+    have hb : SimRes R (if ifdefIgnore neg name (ifdefEnter c2) then exec e (ifdefEnter c1) else exec t (ifdefEnter c1))
+                       (if ifdefIgnore neg name (ifdefEnter c2) then exec e (ifdefEnter c2) else exec t (ifdefEnter c2)) := by
+      cases ifdefIgnore neg name (ifdefEnter c2)
       · simpa using iht (hp.imp id (fun x => x.1)) h1
       · simpa using ihe (hp.imp id (fun x => x.2.1)) h1
-    have hb := hb (if neg then (lookup d2.k.defines name).isSome || (lookup d2.k.syms name).isSome
-                   else !((lookup d2.k.defines name).isSome || (lookup d2.k.syms name).isSome))
     revert hb
-    generalize (if (if neg then (lookup d2.k.defines name).isSome || (lookup d2.k.syms name).isSome
-                      else !((lookup d2.k.defines name).isSome || (lookup d2.k.syms name).isSome)) then exec e d1 else exec t d1) = r1
-    generalize (if (if neg then (lookup d2.k.defines name).isSome || (lookup d2.k.syms name).isSome
-                      else !((lookup d2.k.defines name).isSome || (lookup d2.k.syms name).isSome)) then exec e d2 else exec t d2) = r2
+    generalize (if ifdefIgnore neg name (ifdefEnter c2) then exec e (ifdefEnter c1) else exec t (ifdefEnter c1)) = r1
+    generalize (if ifdefIgnore neg name (ifdefEnter c2) then exec e (ifdefEnter c2) else exec t (ifdefEnter c2)) = r2
     intro hb
     obtain ⟨hok, hs⟩ := hb
     simp only [hok]
     split
-    · exact ihr (hp.imp id (fun x => x.2.2)) (hs.mapK (fun k => { k with ifdefCount := k.ifdefCount - 1 }))
+    · exact ihr (hp.imp id (fun x => x.2.2)) hs.ifdefLeave
     · exact ⟨hok, hs⟩
   | «repeat» count body rest ihb ihr =>
     intro c1 c2 h
@@ -352,27 +383,11 @@ theorem exec_sim (hR : CellRel R) (p : Prog) (hp : Full R ∨ NoRepeat p) :
       simp only [h.1]
       split
       · exact h.fail
-      · have h1 : Sim R ({ c1 with k := { c2.k with inRepeat := true } }.echo ".repeat")
-                        ({ c2 with k := { c2.k with inRepeat := true } }.echo ".repeat") := by
-          have := (h.mapK (fun k => { k with inRepeat := true })).echo ".repeat" ".repeat"
-          simpa only [h.1] using this
-        revert h1
-        generalize ({ c1 with k := { c2.k with inRepeat := true } }.echo ".repeat") = d1
-        generalize ({ c2 with k := { c2.k with inRepeat := true } }.echo ".repeat") = d2
-        intro h1
-        obtain ⟨hok, hs⟩ := ihb (Or.inl hF) h1
-        simp only [hok, h1.1]
+      · obtain ⟨hok, hs⟩ := ihb (Or.inl hF) h.repeatEnter
+        simp only [hok]
         split
+        · exact ihr (Or.inl hF) (hs.repeatFinish hR hF _ _)
         · exact ⟨hok, hs⟩
-        · apply ihr (Or.inl hF)
-          have h2 := hs.mapK (fun k => { k with inRepeat := false })
-          have h3 := copies_sim hR hF d2.k.address (span d2.k.address (exec body d2).ctx.k.address) (count.toNat - 1) h2
-          simp only [hs.1] at h3 ⊢
-          split <;> split <;> first
-            | exact h3.listAppend _ _
-            | exact h3
-            | exact h3.of_eq (by simp) rfl (by simp) rfl
-            | exact h3.of_eq rfl (by simp) rfl (by simp)
     · exact absurd hn (by simp [NoRepeat])
   | «include» body rest ihb ihr =>
     intro c1 c2 h
@@ -380,22 +395,10 @@ theorem exec_sim (hR : CellRel R) (p : Prog) (hp : Full R ∨ NoRepeat p) :
     simp only [h.1]
     split
     · exact h.fail
-    · have h1 : Sim R ({ c1 with rep := { c1.rep with writeListFile := false },
-                                 k := { c2.k with includeDepth := c2.k.includeDepth + 1 } } : Ctx)
-                      ({ c2 with rep := { c2.rep with writeListFile := false },
-                                 k := { c2.k with includeDepth := c2.k.includeDepth + 1 } } : Ctx) := by
-        have := (h.mapK (fun k => { k with includeDepth := k.includeDepth + 1 })).setRep
-          { c1.rep with writeListFile := false } { c2.rep with writeListFile := false }
-        simpa only [h.1] using this
-      obtain ⟨hok, hs⟩ := ihb (hp.imp id (fun x => x.1)) h1
+    · obtain ⟨hok, hs⟩ := ihb (hp.imp id (fun x => x.1)) h.includeEnter
       simp only [hok]
-      have h2 := (hs.mapK (fun k => { k with includeDepth := k.includeDepth - 1 })).setRep
-        { (exec body { c1 with rep := { c1.rep with writeListFile := false },
-                               k := { c2.k with includeDepth := c2.k.includeDepth + 1 } }).ctx.rep with writeListFile := c1.rep.writeListFile }
-        { (exec body { c2 with rep := { c2.rep with writeListFile := false },
-                               k := { c2.k with includeDepth := c2.k.includeDepth + 1 } }).ctx.rep with writeListFile := c2.rep.writeListFile }
       split
-      · exact ihr (hp.imp id (fun x => x.2)) h2
-      · exact ⟨rfl, h2⟩
+      · exact ihr (hp.imp id (fun x => x.2)) (hs.includeLeave _ _)
+      · exact ⟨rfl, hs.includeLeave _ _⟩
 
 end NakenVerif.Determinism
